@@ -9,10 +9,12 @@ import (
 	"io"
 	"net"
 	"os"
+	"strings"
 	"sync"
 	"syscall"
 	"testing"
 	"time"
+	"unsafe"
 
 	"github.com/samaritan-proxy/samaritan/verifrt/hutil"
 	"github.com/samaritan-proxy/samaritan/verifrt/sched"
@@ -241,7 +243,8 @@ func c17frames(env sched.Env) *sched.Report {
 // alphabet  requests admin | localconf | drain | terminate | unknown(99) ; sequences up to length 4/5;
 //           a first child that drops after k requests (k = 0..len) or mid-request (header only),
 //           or sends a malformed frame, or sends a request and is gone before its reply can be written,
-//           followed by a second child doing the full sequence; every type byte 0..255 that is not a request;
+//           followed by a second child doing the full sequence; a child that sends a malformed frame before its
+//           k-th request and carries on (the request is written once the frame was taken); every type byte 0..255 that is not a request;
 //           a child connecting while accept fails with EMFILE (own process with a lowered descriptor limit)
 // oracle    one instance call per request, in request order; each acknowledged with the matching reply
 //           type; unknown -> unknown reply; the second child completes
@@ -466,7 +469,7 @@ func c17handover(cs c17seq) (sig, detail string) {
 		}
 		return "", ""
 	}
-	if cs.Drop != "" {
+	if cs.Drop != "" && !strings.HasSuffix(cs.Drop, "-stays") {
 		c1 := dial()
 		if c1 == nil {
 			return "first-child-cannot-connect", ""
@@ -568,9 +571,25 @@ func c17handover(cs c17seq) (sig, detail string) {
 	}
 	for i, ki := range cs.Seq {
 		k := reqKinds[ki]
+		if strings.HasSuffix(cs.Drop, "-stays") && i == cs.K {
+			// the child sends a malformed frame and stays: the frame is rejected and the requests that follow on the same
+			// connection are performed and acknowledged as usual. The next request is only written once the old process
+			// has taken the malformed frame out of the socket (so that the two are never merged into one read); if
+			// that cannot be observed the case is left out.
+			if cs.Drop == "header-stays" {
+				c2.Write([]byte{byte(shutdownAdminReq), 0})
+			} else {
+				c2.Write([]byte{byte(shutdownAdminReq), 0xff, 0xff, 1, 2, 3})
+			}
+			if !c17waitTaken(c2, 10*time.Second) {
+				return "", ""
+			}
+		}
 		if s, d := exchange(c2, k); s != "" {
 			who := ""
-			if cs.Drop != "" {
+			if strings.HasSuffix(cs.Drop, "-stays") {
+				who = " / after a malformed frame on the same connection"
+			} else if cs.Drop != "" {
 				who = " / after a dropped child (" + cs.Drop + ")"
 			}
 			return s + who, fmt.Sprintf("request %d of %v: %s", i, cs.Seq, d)
@@ -594,6 +613,31 @@ func c17handover(cs c17seq) (sig, detail string) {
 		}
 	}
 	return "", ""
+}
+
+// c17waitTaken waits until the peer has read everything this end wrote (the socket's count of unread sent bytes,
+// SIOCOUTQ, is back to zero); false if that did not happen in time or the count is not available.
+func c17waitTaken(c *net.UnixConn, limit time.Duration) bool {
+	rc, err := c.SyscallConn()
+	if err != nil {
+		return false
+	}
+	deadline := time.Now().Add(limit)
+	for time.Now().Before(deadline) {
+		var n int32 = -1
+		var errno syscall.Errno
+		rc.Control(func(fd uintptr) {
+			_, _, errno = syscall.Syscall(syscall.SYS_IOCTL, fd, uintptr(syscall.TIOCOUTQ), uintptr(unsafe.Pointer(&n)))
+		})
+		if errno != 0 {
+			return false
+		}
+		if n == 0 {
+			return true
+		}
+		time.Sleep(time.Millisecond)
+	}
+	return false
 }
 
 func c17sequences(env sched.Env) *sched.Report {
@@ -655,6 +699,9 @@ func c17sequences(env sched.Env) *sched.Report {
 			if len(seq) <= 3 {
 				for k := 0; k <= len(seq); k++ {
 					cases = append(cases, c17seq{Seq: seq, Drop: "after", K: k}, c17seq{Seq: seq, Drop: "header", K: k}, c17seq{Seq: seq, Drop: "garbage", K: k})
+					if k < len(seq) {
+						cases = append(cases, c17seq{Seq: seq, Drop: "header-stays", K: k}, c17seq{Seq: seq, Drop: "garbage-stays", K: k})
+					}
 					if len(seq) <= 2 {
 						cases = append(cases, c17seq{Seq: seq, Drop: "noreply", K: k})
 					}
